@@ -373,7 +373,7 @@ def main(argv=None):
             if o.get('replay') is not None:
                 confirmed = None if o['replay'].get('confirmed') is None else bool(o['replay'].get('confirmed'))
                 rp['replay_result'] = o['replay']
-            elif os.path.exists(rscript) and o.get('inputs') is not None:
+            elif os.path.exists(rscript) and (o.get('inputs') is not None or o['kind'] == 'pre@call'):
                 payload = {'function': owner, 'obligation': o['name'], 'inputs': o.get('inputs'),
                            'consts': o.get('consts'), 'kind': o['kind'], 'site': o.get('site')}
                 rp['replay_payload'] = payload
